@@ -4,6 +4,7 @@ from .report import Ctx, finish
 from .paths import render_path
 from . import rules_wrappers as W
 from .decorators import load_decorators
+from . import rules_keymaps as K
 
 TECH = 'static analysis: exhaustive path enumeration with typed exception edges over the decorator closures (ast), def-use normal forms, who-may-call rules'
 
@@ -147,9 +148,41 @@ def check_C18(ctx, tier):
             'KeyError escape, neither evaluates nor mutates; interface attributes are wired to the decorator\'s own cache/keymap/ignore.')
 
 
+def check_C09(ctx, tier):
+    K.rule_K_ORDER(ctx, ctx.repo)
+    K.rule_K_DISPATCH(ctx, ctx.repo)
+    for d, paths in _wrappers(ctx, tier):
+        W.setup_abbrev(d)
+        W.rule_W_KEY(ctx, d, paths)
+    ctx.assume("_keygen's binding of positionals/defaults to parameter names is value-level and not decided")
+    return ('Keymap side of canonicalisation: no keyword-order-dependent value reaches the key returned by keymap.encode/encrypt except '
+            'through the sorter role; __call__ dispatches flat->encode / non-flat->encrypt; every encoder subclass overrides both and '
+            'encodes the base-class result; the wrappers pass the _keygen result to the keymap unchanged.')
+
+
+def check_C10(ctx, tier):
+    K.rule_K_INFO_TYPED_SENT(ctx, ctx.repo)
+    K.rule_K_HASH(ctx, ctx.repo)
+    K.rule_K_DISPATCH(ctx, ctx.repo)
+    ctx.assume('injectivity of repr/str/pickle of the argument values and fast-type unwrapping collisions are not decided')
+    return ('Every positional argument and every (name, value) keyword item reaches the key whole on every path of keymap.encode/encrypt; '
+            'typed keys append the types of all positional and all keyword values; a configured sentinel separates every two adjacent '
+            'segments of a flat key; named-algorithm hash is the full digest of the full repr, string/pickle encode the whole object.')
+
+
+def check_C17(ctx, tier):
+    K.rule_K_PROC(ctx, ctx.repo)
+    K.rule_K_ORDER(ctx, ctx.repo)
+    K.rule_K_REPR(ctx, ctx.repo)
+    K.rule_K_HASH(ctx, ctx.repo)
+    ctx.assume("process independence of the arguments' own repr/pickle is assumed by the property")
+    return ('No process-dependent value (builtin hash, id, random, time, set iteration) reaches a key in the raw/string/pickle/named-hash '
+            'configurations; keyword order is removed by the sorter; marker objects embedded in keys have constant reprs.')
+
+
 CHECKS = {
     'C01': check_C01, 'C02': check_C02, 'C05': check_C05, 'C06': check_C06, 'C07': check_C07,
-    'C15': check_C15, 'C16': check_C16, 'C18': check_C18,
+    'C09': check_C09, 'C10': check_C10, 'C17': check_C17, 'C15': check_C15, 'C16': check_C16, 'C18': check_C18,
 }
 
 
